@@ -282,6 +282,51 @@ def engine_survives_can_handle_exception():
         return rec
 
 
+def answer_waiting_at_expiry():
+    """whole passes of the real engine: the answer to a request is already waiting in the socket in the very pass in
+    which the request's timeout runs out.  Once the answer has been dispatched the request is gone and nothing more
+    of it is transmitted (the model's NoSendAfterAnswer, here with the real order of the pass)."""
+    from geckolib.driver import GeckoUdpSocket, GeckoUdpProtocolHandler
+    out = []
+    for early in (0.0, 0.02, -0.02):
+        with W2() as w2:
+            sock = GeckoUdpSocket()
+            ms = MockSock(w2.clock)
+            sock._socket = ms
+            sock.open()
+
+            class Req(GeckoUdpProtocolHandler):
+                def can_handle(self, received_bytes, sender):
+                    return received_bytes == b"ANSWER"
+
+                def handle(self, received_bytes, sender):
+                    self._should_remove_handler = True
+
+            T = 1.0
+            h = Req(send_bytes=b"REQUEST", timeout=T, retry_count=3,
+                    on_retry_failed=GeckoUdpProtocolHandler._default_retry_failed_handler)
+            sock.add_receive_handler(h)
+            sock.queue_send(h, ("10.0.0.1", 10022))
+            answered_at = None
+            tx_after = 0
+            injected = False
+            for _ in range(120):
+                w2.advance(0.05)
+                if not injected and h.age > T + early and ms.wire:
+                    ms.inbox.append((b"ANSWER", ("10.0.0.1", 10022)))
+                    injected = True
+                n0 = len(ms.wire)
+                with contextlib.redirect_stdout(io.StringIO()):
+                    W2.step(sock)
+                if answered_at is not None:
+                    tx_after += len(ms.wire) - n0
+                if answered_at is None and h not in sock._receive_handlers:
+                    answered_at = w2.clock.t
+            out.append({"kind": "expiry", "offset_ms": int(early * 1000), "answered": answered_at is not None,
+                        "transmissions": len(ms.wire), "transmissions_after_removal": tx_after})
+    return out
+
+
 def engine_iteration_order():
     """the sub-steps the REAL _thread_func performs in one pass, with and without a datagram waiting:
     the model's phase cycle is send -> recv -> loop -> cleanup (-> sub-class hook) in every iteration"""
@@ -424,6 +469,10 @@ def run(ctx):
     # the order of the sub-steps in one real pass is recorded as evidence only: the property does not prescribe
     # it (the replay drives the model's sub-actions itself; whole-engine runs use the real pass, W2.step)
     ev.cov["real_pass_sub_steps"] = [{"datagram_waiting": o["waiting"], "order": o["order"]} for o in engine_iteration_order()]
+    for xr in answer_waiting_at_expiry():
+        ev.cov.setdefault("answer_waiting_at_expiry", []).append(xr)
+        if not xr["answered"] or xr["transmissions_after_removal"] > 0:
+            ctx.violation({"clause": "transmission-after-the-request-was-answered-and-removed"}, xr)
     rec = engine_survives_can_handle_exception()
     if rec["escaped"] or not rec["dispatched_after"]:
         ctx.violation({"clause": "handler-exception-stops-the-engine", "where": "can_handle"}, rec)
